@@ -19,7 +19,8 @@ RULE = ("cases = (script, mode): seeded random mixes of 1..9 statement groups ov
         "ALTER groups, types, sequences, domains, schemas incl. CLONE, databases incl. CLONE, tablespaces, SET properties) with "
         "comments, every kind adjacent to every other over the run, in all 15 modes; plus the adjacency matrix kind x kind once; plus "
         "corpus scripts (bucket by the flat entity's own shape, since no abstract script exists). Non-trivial = >= 2 entities of >= 2 "
-        "kinds; distinct = distinct (script, mode).")
+        "kinds; distinct = distinct (script, mode)."
+        " Added after seeded defects: SET with empty values, empty-result scripts, blank comment texts, pool scripts, flat/grouped histories on one object in both orders, the grouped call through parse_from_file.")
 ASSUMPTIONS = ["for corpus scripts only losslessness/order/mandatory buckets are checked (the expected bucket comes from the entity's own key, which is the code's convention)"]
 MIN_EVENTS = {"run_return": 500}
 MANDATORY = ["tables", "types", "sequences", "domains", "schemas", "ddl_properties"]
